@@ -2,7 +2,7 @@
    Statements only; proofs live in Ssz/TreeView.v.  Everything is parametric in the hash function H and holds
    for ALL trees, positions, chunk lists and operation sequences. *)
 From Coq Require Import NArith List.
-From V Require Import Ssz.SszCore Ssz.TreeView.
+From V Require Import Ssz.SszCore Ssz.TreeView Ssz.TreeValue.
 Import ListNotations.
 
 Section C05.
@@ -10,6 +10,13 @@ Section C05.
   Variable zero_hash : nat -> bytes.
   Hypothesis zero_hash_0 : zero_hash 0 = zero_chunk.
   Hypothesis zero_hash_S : forall d, zero_hash (S d) = H (zero_hash d ++ zero_hash d).
+
+  (* struct form = tree form = specification: for EVERY type and EVERY value, the (cached) root of the backing tree
+     of the value is the specification's hash_tree_root; and that tree satisfies the cache invariant *)
+  Theorem C05_struct_eq_tree : forall t v, root (tree_of H t v) = hash_tree_root H zero_hash t v.
+  Proof. exact (htr_struct_eq_tree H zero_hash zero_hash_0 zero_hash_S). Qed.
+  Theorem C05_tree_of_value_ok : forall t v, cache_ok H (tree_of H t v).
+  Proof. exact (tree_of_cache_ok H zero_hash zero_hash_0 zero_hash_S). Qed.
 
   (* the root of the (cached) tree built over a chunk list is the specification's merkleization with zero padding *)
   Theorem C05_tree_root_is_merkleization : forall d cs, (length cs <= Nat.pow 2 d)%nat ->
@@ -35,6 +42,8 @@ Section C05.
   Theorem C05_built_tree_ok : forall d ns, Forall (cache_ok H) ns -> cache_ok H (build H d ns).
   Proof. exact (build_cache_ok H zero_hash zero_hash_0 zero_hash_S). Qed.
 End C05.
+Print Assumptions C05_struct_eq_tree.
+Print Assumptions C05_tree_of_value_ok.
 Print Assumptions C05_tree_root_is_merkleization.
 Print Assumptions C05_set_keeps_cache.
 Print Assumptions C05_cache_never_stale.
